@@ -91,6 +91,12 @@ Rule(r, input, ctx) ==
             ELSE IF HasKey(r, "IsNull") THEN (IF IsNull(var) = S(r, "IsNull").b THEN "match" ELSE "nomatch")
             ELSE IF HasKey(r, "IsString") THEN (IF IsStr(var) = S(r, "IsString").b THEN "match" ELSE "nomatch")
             ELSE IF HasKey(r, "IsNumeric") THEN (IF (var.t = "num") = S(r, "IsNumeric").b THEN "match" ELSE "nomatch")
+            (* a variable-to-variable comparison: the second path is read from the same (effective) input as Variable; *)
+            (* what happens when it selects nothing is left open                                                      *)
+            ELSE IF HasKey(r, "NumericEqualsPath")
+                 THEN (LET w == PathValue(input, ctx, PathOf(S(r, "NumericEqualsPath")))
+                       IN IF IsMissing(w) THEN "open"
+                          ELSE IF var.t = "num" /\ w.t = "num" /\ var.n * w.d = w.n * var.d THEN "match" ELSE "nomatch")
             ELSE "open"
 
 RECURSIVE FirstMatch(_, _, _, _)
